@@ -505,6 +505,7 @@ def run(chk):
     stateful_runs(chk, chk.budget(3, 30))
     chk.variants["execute_state_machine_loop:flaky-arm"] = E.detect_flaky_variant()
     E.stateful_machine_checks(chk, chk.budget(120, 1500), chk.budget(150, 2000), "C12")
+    E.stateful_interrupt_probe(chk)
     for mf in (1, None):
         E.intermittent_error_probe(chk, "C12", max_failures=mf)
     if chk.thorough:
